@@ -76,8 +76,10 @@ def _cases(tree, depth, rng, full, descs=None, aspects=ASPECTS, scale=1, hfmt=No
            variants=None, reuse=False):
     """hfmt: format of the tensor's own ranks ("C"/"U" per rank, None = all "C"); dflt: the tensor's
     default (an integer like the leaves, divided by `scale` when built); cum: the codec's
-    cumulative_payloads flags (None = all True); reuse: the Codec object has already encoded another
-    tensor (with its own get_output_dict()) before it encodes this one"""
+    cumulative_payloads flags (None = all True); reuse: the Codec object has been used before it
+    encodes this tensor — first use = another / the same tensor, with / without an imposed shape
+    (one of REUSE; True = chosen per descriptor and shape variant so that all combinations with the
+    second use's with / without imposed shape occur)"""
     vs = _variants(tree, depth, rng, full)
     if variants is not None:
         vs = vs[:variants]
@@ -93,7 +95,8 @@ def _cases(tree, depth, rng, full, descs=None, aspects=ASPECTS, scale=1, hfmt=No
                 if cum is not None:
                     c["cum"] = cum
                 if reuse:
-                    c["reuse"] = True
+                    c["reuse"] = reuse if isinstance(reuse, str) else REUSE[(len(desc) + "UCB".index(desc[0]) +
+                                                                             (1 if ish else 0)) % 4]
                 yield c
 
 
@@ -119,6 +122,7 @@ def _wide_cases(rng, n):
                            "declared": declared, "ish": ish, "scale": 1, "aspect": asp}
 
 
+REUSE = ["other", "other+shape", "same", "same+shape"]
 MASKSETS = [[40], [0, 64], [0, 33, 100], [31, 32, 64, 127, 128, 129], [5, 70, 140, 200], [127], [128], [0, 31, 63, 95, 96],
             [32, 33, 34, 160]]
 
@@ -202,7 +206,7 @@ def gen(seed, tier):
         asp = ASPECTS if full or i % 2 == 0 else [rng.choice(ASPECTS)]
         for c in _cases(tree, d, rng, False, descs, asp, scale=scale, hfmt=hfmt, dflt=dflt,
                         cum=[rng.random() < 0.5 for _ in range(d)], variants=None if i % 2 else 2,
-                        reuse=rng.random() < 0.4):
+                        reuse=(rng.choice(REUSE) if rng.random() < 0.5 else False)):
             yield c
 
 
@@ -383,12 +387,20 @@ def run(case):
     try:
         with contextlib.redirect_stdout(buf):
             codec = Codec(desc, list(case.get("cum") or [True] * d))
-            if case.get("reuse"):
-                # the codec object has been used before: another tensor (this one with every leaf
-                # doubled and an element added), its own output dict and fiber lists
-                other = _build(_other_tree(tree, d), d, scale, dflt)
-                ot0 = ft.Tensor.fromFiber(rank_ids=ids, fiber=other, **({"default": kw["default"]} if "default" in kw else {}))
-                codec.encode(-1, ot0.getRoot(), ids, codec.get_output_dict(ids), [[] for _ in range(d + 1)])
+            mode = case.get("reuse")
+            if mode:
+                # the codec object has been used before — for another tensor (every leaf doubled, an
+                # element added) or for this one, with or without an imposed shape (larger than that
+                # tensor's own) — each use with its own output dict and fiber lists
+                mode = "other" if mode is True else mode
+                if mode.startswith("other"):
+                    prev = ft.Tensor.fromFiber(rank_ids=ids, fiber=_build(_other_tree(tree, d), d, scale, dflt),
+                                               **({"default": kw["default"]} if "default" in kw else {}))
+                else:
+                    prev = t
+                pshape = [x + 1 + (k % 2) for k, x in enumerate(prev.getShape())] if mode.endswith("+shape") else None
+                codec.encode(-1, prev.getRoot(), ids, codec.get_output_dict(ids), [[] for _ in range(d + 1)],
+                             shape=pshape)
             out = codec.get_output_dict(ids)
             ot = [[] for _ in range(d + 1)]
             codec.encode(-1, t.getRoot(), ids, out, ot, shape=case["ish"])
@@ -396,6 +408,10 @@ def run(case):
                 # state left behind: the tensor is only read, and the codec object can be used again
                 side["tensor_unchanged"] = H.snapshot(t.getRoot()) == before
                 first = copy.deepcopy(out)
+                # … in between once with the other shape setting (imposed <-> not imposed)
+                toggled = None if case["ish"] else [x + 2 for x in case["tshape"]]
+                codec.encode(-1, t.getRoot(), ids, codec.get_output_dict(ids), [[] for _ in range(d + 1)],
+                             shape=toggled)
                 out2 = codec.get_output_dict(ids)
                 codec.encode(-1, t.getRoot(), ids, out2, [[] for _ in range(d + 1)], shape=case["ish"])
                 side["second_encode_same"] = out2 == first
